@@ -11,6 +11,7 @@ import (
 	"fmt"
 	"go/token"
 	"go/types"
+	"math"
 	"reflect"
 	"sort"
 	"strconv"
@@ -34,10 +35,10 @@ const (
 
 type jnode struct {
 	kind    jkind
-	b       value   // jBool: bool or symv
-	num     value   // jNum: exact numeric value (any int/uint/float kind, concrete or symv); nil when numText is set
-	numText string  // jNum parsed from concrete text
-	str     value   // jStr: string or symstr
+	b       value  // jBool: bool or symv
+	num     value  // jNum: exact numeric value (any int/uint/float kind, concrete or symv); nil when numText is set
+	numText string // jNum parsed from concrete text
+	str     value  // jStr: string or symstr
 	arr     []*jnode
 	keys    []string
 	vals    []*jnode
@@ -594,7 +595,25 @@ func (u *unmarshalState) numberInto(n *jnode, dstT types.Type, dst types.BasicKi
 		u.typeErr("number", dstT)
 		return nil, false
 	case src == types.Float32 && dst == types.Float64:
-		unsupportedf("json: float32 value decoded as float64 (shortest-decimal re-parse not modelled)")
+		// a float32 is printed as the shortest decimal that round-trips as a
+		// float32; parsed as a float64 that decimal is in general NOT the
+		// widened float32.  Not expressible as a term: the float32 is
+		// concretised (values with long binary expansions first) and the real
+		// formatting and parsing are applied.
+		var f32 float32
+		if sv, ok := n.num.(symv); ok {
+			bits := i.concFloat32(sv)
+			f32 = math.Float32frombits(uint32(bits))
+		} else {
+			f32 = n.num.(float32)
+		}
+		txt := strconv.FormatFloat(float64(f32), 'g', -1, 32)
+		f, err := strconv.ParseFloat(txt, 64)
+		if err != nil {
+			u.typeErr("number "+txt, dstT)
+			return nil, false
+		}
+		return f, true
 	case src == types.Float64 && dst == types.Float32:
 		return conv(types.Typ[dst], types.Typ[src], n.num), true
 	case kindIsFloat(src) && kindIsInt(dst):
